@@ -30,7 +30,7 @@ UNDER = {"td_int": "int", "td_uchar": "uchar", "td_ullong": "ullong", "td_td_sho
          "uint8_t": "uchar", "int16_t": "short", "uint32_t": "uint", "int64_t": "long",
          "size_t": "ulong", "ptrdiff_t": "long", "uintptr_t": "ulong",
          "int_fast16_t": "long", "uint_fast32_t": "ulong", "int_least16_t": "short", "uint_least8_t": "uchar",
-         "intmax_t": "long",
+         "intmax_t": "long", "ro_int": "int",
          "E_s": "int", "enum_E_u": "uint", "E_l": "ulong"}
 ENUM_TAG = {"E_s", "enum_E_u", "E_l"}
 
@@ -71,7 +71,7 @@ DECL = {
     "p_int": "int *{n}", "pc_int": "const int *{n}", "p_char": "char *{n}", "pc_char": "const char *{n}",
     "p_void": "void *{n}", "pc_void": "const void *{n}", "p_double": "double *{n}",
     "pc_S16i": "const struct S16i *{n}", "p_S33": "struct S33 *{n}", "pp_int": "int **{n}",
-    "pc_pc_char": "const char *const *{n}", "p_td_int": "td_int *{n}",
+    "pc_pc_char": "const char *const *{n}", "p_td_int": "td_int *{n}", "p_ro_int": "ro_int *{n}",
     "a4_int": "int {n}[4]", "ac_char": "const char {n}[]", "a2_S8m": "struct S8m {n}[2]",
     "ac3_double": "const double {n}[3]", "a2x3_int": "int {n}[2][3]",
     # function pointers in the three spellings C has for them: the declarator in place, a pointer to a typedef
@@ -145,7 +145,7 @@ def prelude(cross=False):
     for uid, fields in UNIONS.items():
         body = " ".join("%s %s%s;" % (C_SCALAR[t], f, "[%d]" % n if n else "") for f, t, n in fields)
         L.append("union %s { %s };" % (uid, body))
-    L += ["typedef long fnty_l_sd(short, double);", "typedef double (*fnptr_d_v)(void);"]
+    L += ["typedef long fnty_l_sd(short, double);", "typedef double (*fnptr_d_v)(void);", "typedef const int ro_int;"]
     return "\n".join(L) + "\n"
 
 
